@@ -735,7 +735,7 @@ class Driver:
             cur = spec.get_path(cfg, path)
         except Exception:
             return None
-        if nd is None or nd["kind"] != "field" or nd["family"] != "dict" or not isinstance(cur, dict):
+        if nd is None or nd["kind"] != "field" or nd["family"] != "dict" or not (isinstance(cur, dict) or cur is None):
             return None
         k, v = op["kv"]
         if not isinstance(k, str) or ("." in k and not op.get("deep")) or not k:
@@ -744,6 +744,8 @@ class Driver:
         a = model.accepts(kf, k, self.env)[0] if kf else True
         b = model.accepts(vf, v, self.env)[0] if vf else True
         label = False if (a is False or b is False) else (None if (a is None or b is None) else True)
+        if cur is None and label is not False:
+            return None  # (whether an acceptable entry starts a map where the field holds none is not judged)
         before = self.snapshot()
         exc = self._run(lambda: cfg.__setitem__(path + "." + k, spec.realize(cc, v)))
         pred = Prediction(clone(before.values), dict(before.flags))
